@@ -259,11 +259,46 @@ func runC19(c *Ctx) {
 						continue
 					}
 					if cmp, ok := iff.Cond.(*ssa.BinOp); ok && cmp.Op == token.NEQ {
-						if s, ok := constString(cmp.Y); ok && s == "1" && b.Succs[1].Dominates(sends[0].Block()) {
+						if s, ok := constString(cmp.Y); ok && s == "1" && b.Succs[1].Dominates(sends[0].Block()) && edgeOnly(b, b.Succs[1]) {
 							good = true
 						}
 					}
 				}
+				// … and where ok is true: the extension was advertised at all
+				okSide := false
+				for _, r := range *hxs[0].(*ssa.Call).Referrers() {
+					ex, isEx := r.(*ssa.Extract)
+					if !isEx || ex.Index != 1 || ex.Referrers() == nil {
+						continue
+					}
+					for _, rr := range *ex.Referrers() {
+						var iff *ssa.If
+						neg := false
+						switch x := rr.(type) {
+						case *ssa.If:
+							iff = x
+						case *ssa.UnOp:
+							if x.Op == token.NOT && x.Referrers() != nil {
+								for _, r3 := range *x.Referrers() {
+									if i2, ok := r3.(*ssa.If); ok {
+										iff, neg = i2, true
+									}
+								}
+							}
+						}
+						if iff == nil {
+							continue
+						}
+						side := iff.Block().Succs[0]
+						if neg {
+							side = iff.Block().Succs[1]
+						}
+						if edgeOnly(iff.Block(), side) && (side == sends[0].Block() || side.Dominates(sends[0].Block())) {
+							okSide = true
+						}
+					}
+				}
+				good = good && okSide
 			}
 			c.check(good, "R2", "fsync only when advertised", p.Pos(sy.Pos()), "sent only under HasExtension(fsync) == \"1\"", "Sync sends fsync@openssh.com without the server having advertised it")
 		}
@@ -636,6 +671,11 @@ func runC19(c *Ctx) {
 	// R11 (shared with C02.R2): an advertised extension is served only if its reply reaches the caller — under the request's id
 	c.withOnly("R2", "R11", func() { runC02(c) })
 	checkAdvertisedDataMatchesOpenSSH(c, "R12")
+	checkUnknownExtensionKeepsTheLoop(c, "R13")
+	// R14 (shared with C06.R9): the extension pairs a decoder collects are distinct objects (not n pointers to one variable)
+	checkFreshElements(c, "R14")
+	// R15 (shared with C05.R1): an advertised extension is served by the file-system call it stands for
+	c.withOnlyKeys("R1", "R15", []string{"sshFxpExtendedPacket"}, func() { runC05(c) })
 }
 
 // checkDecodedOnlyIfConfigured (C19.R7): "advertised ⊆ served" is R5; this is the converse.  The extended-request
@@ -1021,5 +1061,88 @@ func checkAdvertisedDataMatchesOpenSSH(c *Ctx, rule string) {
 			continue
 		}
 		c.check(adv[n] == want, rule, "revision advertised for "+n, "sftp.go", fmt.Sprintf("%q, as in the openssh package", want), fmt.Sprintf("the servers advertise %s with data %q, the openssh package (and the OpenSSH description) say %q", n, adv[n], want))
+	}
+}
+
+// checkUnknownExtensionKeepsTheLoop (C19.R13): in both receive loops, from the branch that recognises the
+// "unknown extended request" error the next thing that can happen is the next recvPacket — no way leads out of the loop
+// (to a return, to the close of the request channel) without it.  Followed with what is known on that branch: the
+// error variable is not nil there, so a loop condition `for err == nil` that nobody resets ends the session one
+// request after the op-unsupported answer.
+func checkUnknownExtensionKeepsTheLoop(c *Ctx, rule string) {
+	p := c.P
+	for _, name := range []string{"(*Server).Serve", "(*RequestServer).serveLoop"} {
+		fn := p.Func(name)
+		if fn == nil {
+			c.missing(rule, name)
+			continue
+		}
+		var isCall *ssa.Call
+		eachInstr(fn, func(in ssa.Instruction) {
+			call, ok := in.(*ssa.Call)
+			if !ok || !callIs(&call.Call, "errors.Is") || len(call.Call.Args) != 2 {
+				return
+			}
+			for _, l := range leavesOf(call.Call.Args[1]) {
+				if l.Kind == leafGlobal && l.V.Name() == "errUnknownExtendedPacket" {
+					isCall = call
+				}
+			}
+		})
+		key := name + " goes on receiving after an unknown extension"
+		if isCall == nil {
+			c.und(rule, key, p.Pos(fn.Pos()), "cannot find the test for errUnknownExtendedPacket")
+			continue
+		}
+		// the side on which the error is the unknown-extension error
+		var side *ssa.BasicBlock
+		for _, r := range *isCall.Referrers() {
+			switch x := r.(type) {
+			case *ssa.If:
+				side = x.Block().Succs[0]
+			case *ssa.UnOp:
+				if x.Op == token.NOT && x.Referrers() != nil {
+					for _, r2 := range *x.Referrers() {
+						if iff, ok := r2.(*ssa.If); ok {
+							side = iff.Block().Succs[1]
+						}
+					}
+				}
+			}
+		}
+		if side == nil {
+			c.und(rule, key, p.Pos(isCall.Pos()), "the result of the test is not branched on")
+			continue
+		}
+		facts := pathFacts{}
+		facts[isCall.Call.Args[0]] = clsNonNil
+		if u, ok := isCall.Call.Args[0].(*ssa.UnOp); ok && u.Op == token.MUL {
+			// the error lives in a variable: every load of it on the way is the same error until it is stored again
+			eachInstr(fn, func(in ssa.Instruction) {
+				if u2, ok := in.(*ssa.UnOp); ok && u2.Op == token.MUL && u2.X == u.X {
+					facts[u2] = clsNonNil
+				}
+			})
+		}
+		for _, r := range *isCall.Call.Args[0].Referrers() {
+			if ph, ok := r.(*ssa.Phi); ok {
+				_ = ph
+			}
+		}
+		seedFacts = facts
+		isRecv := func(in ssa.Instruction) bool {
+			cc := callOf(in)
+			return cc != nil && calleeName(cc) == "recvPacket"
+		}
+		leaves := reachFromBlock(side, func(in ssa.Instruction) bool {
+			if isReturn(in) {
+				return true
+			}
+			if cc := callOf(in); cc != nil && builtinName(cc) == "close" {
+				return true
+			}
+			return false
+		}, isRecv)
+		c.check(!leaves, rule, key, p.Pos(isCall.Pos()), "the next recvPacket is reached before any exit of the loop", "after a request with an unknown extension name the receive loop can be left without reading the next packet (the remembered error ends it): the session is over although the request was answered op-unsupported")
 	}
 }
